@@ -40,6 +40,8 @@ func protect(f func() string) (res string) {
 // realChain: all segments from state -1, in the protocol's canonical format. str selects the
 // string-typed twin.
 func realChain(kind string, b []byte, str bool) string {
+	enter(b, kindName[map[string]string{"fg": "fg", "fw": "fw", "fs": "fs", "fl": "fl", "st": "st", "sts": "st"}[kind]]+" chain")
+	defer leave()
 	return protect(func() string {
 		var parts []string
 		st := -1
@@ -113,6 +115,8 @@ func realChain(kind string, b []byte, str bool) string {
 }
 
 func realIter(b []byte, ops string) string {
+	enter(b, "Graphemes iterator ops "+ops)
+	defer leave()
 	return protect(func() string {
 		g := u.NewGraphemes(string(b))
 		var out []string
